@@ -66,6 +66,14 @@ def obligations(tier, ctx):
             [(200, 0, 0, False, 2, 3), (200, 0, 2, True, 0, 2), (200, 0, 0, False, 0, 1)],
             [(302, 0, 6, False, 0, 0), (200, 0, 7, False, 0, 1), (200, 0, 0, False, 0, 0)],
         ]
+    for sse in (False, True):
+        for b in ((0, 3, 5) if tier == "quick" else range(7 if sse else 9)):
+            if sse and b == 5:
+                continue
+            obs.append(Ob(name=f"session_{'sse' if sse else 'body'}{b}", params=[("status", "int"), ("ct", "int"), ("idsel", "int"), ("before", "bool")],
+                          pre=["200 <= status <= 399", "0 <= ct <= 3" if not sse else "ct == 0", "0 <= idsel <= 3"],
+                          call=f"H.session_after(status, ct, {b}, {sse}, idsel, before)", backend="P", timeout=300,
+                          family="(c) a session id issued by ANY non-error response is carried by the next request"))
     for i, sq in enumerate(seqs):
         obs.append(Ob(name=f"seq{i}", params=[("a", "int"), ("b", "int")], pre=["0 <= a <= 3", "0 <= b <= 3"],
                       call=f"H.sequence_sel({sq!r}, a, b)", backend="P", timeout=200,
